@@ -95,10 +95,19 @@ def _mangled_form(rng, s):
     return "?" + san
 
 
+# non-ASCII identifiers are outside the MODEL's domain (see ASSUMPTIONS) but not outside the property: they are used
+# only by search(), i.e. by the failing-input search with the property oracle on the real code after an obligation broke
+_NONASCII = [False]
+UNICODE_WORDS = ["\u00c9vier", "\u00f1and\u00fa", "\u00e0_table", "\u00d6lwechsel", "\u65e5\u672c", "\u03b1\u03b2", "x\u00e9", "\u00df", "\u0130stanbul", "\u01c5"]
+
+
 def gen_names(rng, k):
     pool = []
     while len(pool) < k:
         r = rng.random()
+        if _NONASCII[0] and r < 0.35:
+            pool.append(rng.choice(UNICODE_WORDS))
+            continue
         if pool and r < 0.45:
             base = rng.choice(pool)
             n = _mangled_form(rng, base) if rng.random() < 0.6 else _case_variant(rng, base)
@@ -114,7 +123,7 @@ def gen_names(rng, k):
             n = rng.choice(WORDS)
             if rng.random() < 0.3:
                 n = n + rng.choice(["_0", "_1", "1", "-x", " y", "_"])
-        if all(32 <= ord(c) < 127 for c in n):
+        if _NONASCII[0] or all(32 <= ord(c) < 127 for c in n):
             pool.append(n)
     return pool
 
@@ -310,6 +319,19 @@ def cases(rng, tier):
             yield gen_pddlw_case(rng)
         else:
             yield gen_anml_case(rng)
+
+
+def search(rng, tier):
+    """wider failing-input search (oracle on the real code only): the ordinary stream, then names with non-ASCII letters"""
+    for i, c in enumerate(cases(rng, "quick")):
+        yield c
+    _NONASCII[0] = True
+    try:
+        for _ in range(600):
+            r = rng.random()
+            yield gen_pddl_case(rng) if r < 0.5 else gen_pddlw_case(rng) if r < 0.7 else gen_anml_case(rng)
+    finally:
+        _NONASCII[0] = False
 
 
 # ---------------------------------------------------------------------------------------------------------
